@@ -311,6 +311,7 @@ void probe(uint16_t port, size_t n, const std::string& request, Check exact)
     }
     for (int fd : fds)
         pv::send_all(fd, request);
+    const auto sent_at = std::chrono::steady_clock::now();
     std::vector<std::string> answers;
     for (int fd : fds)
     {
@@ -326,6 +327,11 @@ void probe(uint16_t port, size_t n, const std::string& request, Check exact)
     {
         std::string more;
         pv::read_until(fds[i], more, [](const std::string& m) { return !m.empty(); }, 30);
+        // On a loaded machine reading the answers can take so long that the endpoint's idle scan (600 ms) answers a fresh
+        // connection 408: that is its own, not something an earlier connection left behind
+        const auto open_ms = std::chrono::duration_cast<std::chrono::milliseconds>(std::chrono::steady_clock::now() - sent_at).count();
+        if (open_ms >= 550 && more.compare(0, 12, "HTTP/1.1 408") == 0 && more.find("\r\n\r\n") + 4 == more.size())
+            more.clear();
         if (exact(answers[i]) != 1 || !more.empty())
         {
             ++g_stale;
